@@ -12,6 +12,22 @@ CHECKS = {
          "Every closed term generated (exhaustively up to a node bound over a reduced alphabet, randomly beyond: typed, applied and chaotic generators) is evaluated by a big-step reference evaluator written from the Plutus Core specification and by the crate under semantics variants A-E; results are compared as fully discharged closed terms, traces in order. Held on everything explored; no absence claim beyond the exhaustive family.",
          "Trusted: the harness' reference evaluator and its ~48 builtin denotations; error kinds are not compared; terms that use unmodelled builtins or exceed the reference fuel are skipped and counted.",
          "DESIGN.md section 4 C03"),
+ "C08": ("property-based round-trip testing (proptest-driven generators; encode/decode/print/parse round trips plus an independently recomputed blake2b-224 hash)",
+         "Generated programs over every term constructor and constant nesting, in four binder forms and several versions, are pushed through flat/CBOR/hex encode-decode, through the decode->print->parse->encode path of the CLI, and through the SerializableProgram JSON form; equality is judged by the harness' own deep comparison and bytes must be reproduced bit for bit; the published hash is compared with the harness' own BLAKE2b-224. Held on everything explored.",
+         "Trusted: the harness' BLAKE2b (self-tested against hashlib vectors) and its structural comparison; BLS constants are out of the flat domain by the encoder's own documentation; the CLI binary itself is not spawned in the quick tier.",
+         "DESIGN.md section 4 C08"),
+ "C11": ("property-based testing against an independent binder-resolution model (exhaustive enumeration of small terms + proptest-driven random terms)",
+         "Named and de Bruijn terms with frequent shadowing, duplicate names and free variables are converted between the binder forms and through the code generator's interner; every variable occurrence must resolve to the binder an independent 30-line resolver computes, free variables must be rejected, and round trips must be the identity / alpha-equivalent. Exhaustive up to a node bound, random beyond.",
+         "Trusted: the harness' resolver (M-BIND). The exhaustive family uses a reduced shape alphabet.",
+         "DESIGN.md section 4 C11"),
+ "C15": ("property-based round-trip testing (print then parse; every builtin and type name enumerated, constants and strings generated)",
+         "Generated programs over all term constructors, every builtin (enumerated), every constant type nesting and strings over all of Unicode are printed and parsed back; the parsed program must have the same de Bruijn structure and equal constants and print to the same text.",
+         "Trusted: the harness' independent name resolution and constant equality. MlResult constants are out of domain (the printer documents that they cannot be represented).",
+         "DESIGN.md section 4 C15"),
+ "C20": ("mutation-based fuzzing of every untrusted-input entry point with an Ok-or-Err validity oracle plus re-encode fixpoints (proptest-driven mutations of valid seeds; crashes and hangs caught by a supervisor process)",
+         "Mutations (bit flips, truncations, splices, huge length prefixes, renamed builtins, deep nesting) of valid flat/CBOR/hex programs, UPLC text, shipped .ak sources, blueprints, schemas and aiken.toml files, and arbitrary PlutusData against every shipped schema, are given to the decoders, parsers, the formatter, blueprint loading and Parameter::validate; each must return a value or an error, and whatever is accepted must re-encode to a fixpoint. Stack overflows and hangs are detected by the supervisor.",
+         "Trusted: nothing beyond the harness. Inputs nested deeper than 10 parentheses are excluded from the Aiken-text targets because of the recorded known finding (exponential parse time); they are counted in evidence. libFuzzer campaigns are not part of the registered commands.",
+         "DESIGN.md section 4 C20"),
 }
 
 NOT_APPLICABLE = {
